@@ -56,6 +56,9 @@ template<class T> __attribute__((noinline)) T *verif_new_array(size_t n) { retur
 namespace std {
 
 template<class T> struct verif_cap { static constexpr size_t value = VERIF_VEC_CAP; };
+// Element types for which reserve(n) on an empty vector is honoured EXACTLY (capacity == n, as libstdc++ does), so that a read
+// of *end() is an out-of-bounds access for the model checker as it is for the real container.  Opt-in per wrapper.
+template<class T> struct verif_exact_reserve { static constexpr bool value = false; };
 
 template<class T, class A = allocator<T>>
 class verif_vector {
@@ -64,13 +67,14 @@ class verif_vector {
     // precise); a moved-from vector gets a fresh array.
     T *b_;
     T *e_;
+    size_t cap_;
 
     static constexpr size_t CAP = verif_cap<verif_vector>::value;
 
-    void alloc() { b_ = verif_new_array<T>(CAP); e_ = b_; }
+    void alloc() { b_ = verif_new_array<T>(CAP); e_ = b_; cap_ = CAP; }
 
     void ensure(size_t n) {
-        if (n > CAP)
+        if (n > cap_)
             verif_cap_exceeded();
     }
 
@@ -130,7 +134,7 @@ public:
             ::new((void *) (e_++)) T(*p);
     }
 
-    verif_vector(verif_vector &&o) noexcept: b_(o.b_), e_(o.e_) { o.alloc(); }
+    verif_vector(verif_vector &&o) noexcept: b_(o.b_), e_(o.e_), cap_(o.cap_) { o.alloc(); }
 
     ~verif_vector() {
         destroy_range(b_, e_);
@@ -152,6 +156,7 @@ public:
             ::operator delete(b_);
             b_ = o.b_;
             e_ = o.e_;
+            cap_ = o.cap_;
             o.alloc();
         }
         return *this;
@@ -165,7 +170,7 @@ public:
     const_iterator cend() const noexcept { return const_iterator(e_); }
 
     size_t size() const noexcept { return size_t(e_ - b_); }
-    size_t capacity() const noexcept { return CAP; }
+    size_t capacity() const noexcept { return cap_; }
     bool empty() const noexcept { return b_ == e_; }
     T *data() noexcept { return b_; }
     const T *data() const noexcept { return b_; }
@@ -177,7 +182,16 @@ public:
     T &back() noexcept { return *(e_ - 1); }
     const T &back() const noexcept { return *(e_ - 1); }
 
-    void reserve(size_t) {}
+    void reserve(size_t n) {
+        if constexpr (verif_exact_reserve<T>::value) {
+            if (b_ == e_ && n > 0 && n <= CAP) {
+                ::operator delete(b_);
+                b_ = verif_new_array<T>(n);
+                e_ = b_;
+                cap_ = n;
+            }
+        }
+    }
     void shrink_to_fit() {}
 
     void clear() noexcept {
@@ -232,6 +246,7 @@ public:
     void swap(verif_vector &o) noexcept {
         std::swap(b_, o.b_);
         std::swap(e_, o.e_);
+        std::swap(cap_, o.cap_);
     }
 };
 
